@@ -15,4 +15,6 @@ import SquidModel.Properties.C34
 #print axioms SquidModel.C34.quoted_string_quote_delimited
 #print axioms SquidModel.C34.shell_word_delimited
 #print axioms SquidModel.C34.raw_quoting_counterexample
-#print axioms SquidModel.C34.default_unquoted_field_counterexample
+#print axioms SquidModel.C34.prefix_unquoted_field_counterexample
+#print axioms SquidModel.C34.user_name_asks_quote
+#print axioms SquidModel.C34.user_name_field_well_delimited
